@@ -13,18 +13,18 @@ let next_mgs () =
   let parts = if next_bool () then Some (next_list (fun () -> next_list next_q)) else None in
   { mg_numbers = nums; mg_total = total; mg_int = isint; mg_mult = mult; mg_parts = parts }
 let () = register "mgsenc" (fun () -> let k = next_nat () in let i = next_mgs () in print_milp (encode_mgs i k))
-(* mgspre: remove, numbers, total ->  the numbers kept *)
+(* mgspre: remove, max_multiplicity, numbers, total ->  the numbers kept *)
 let () = register "mgspre" (fun () ->
-  let rm = next_bool () in let nums = next_list next_q in let total = next_q () in
-  print_endline ("P " ^ s_qs (mgs_preprocess rm nums total)))
-(* mgsloop: lowerbound, n_initial, list of (k, status 0 optimal / 1 infeasible / 2 other) -> tried, result, range *)
+  let rm = next_bool () in let mult = next_nat () in let nums = next_list next_q in let total = next_q () in
+  print_endline ("P " ^ s_qs (mgs_preprocess rm mult nums total)))
+(* mgsloop: lowerbound, n_initial, extra cuts, list of (k, status 0 optimal / 1 infeasible / 2 other) -> tried, result, range *)
 let () = register "mgsloop" (fun () ->
-  let lb = next_nat () in let n = next_nat () in
+  let lb = next_nat () in let n = next_nat () in let extra = next_z () in
   let st = next_list (fun () -> let k = next () in let b = next () in (k, b)) in
   let status k = (try (match List.assoc (int_of_nat k) st with 0 -> MgOptimal | 1 -> MgInfeasible | _ -> MgOther) with Not_found -> MgOther) in
-  let (tried, res) = mgsm_loop status lb n in
+  let (tried, res) = mgsm_loop status lb n extra in
   Printf.printf "T %s | R %s | RANGE %s\n" (s_nats tried)
-    (match res with Some k -> string_of_int (int_of_nat k) | None -> "none") (s_nats (mgsm_range lb n)))
+    (match res with Some k -> string_of_int (int_of_nat k) | None -> "none") (s_nats (mgsm_range lb n extra)))
 (* pyint num den *)
 let () = register "pyint" (fun () -> let x = next_q () in Printf.printf "I %d\n" (int_of_z (py_int x)))
 let () = register "pyround" (fun () -> let x = next_q () in Printf.printf "I %d\n" (int_of_z (py_round_half_even x)))
@@ -34,7 +34,7 @@ let () = register "msc" (fun () ->
   let w = if next_bool () then Some (next_list next_q) else None in
   match encode_msc { sc_universe = u; sc_subsets = ss; sc_weights = w } with
   | Some m -> print_milp m
-  | None -> print_endline "ERROR no-model (TypeError/IndexError)")
+  | None -> print_endline "ERROR no-model (IndexError)")
 let next_mef () =
   let nodes = next_list next_n in let edges = next_list m_edge in let flow = next_list m_eq in
   let ign = next_list m_edge in let sc = next_list m_eq in let lam = next_q () in
